@@ -91,3 +91,24 @@ def run_rows(chk):
             chk.tie_broken('correspondence', 'main', 'stage %d, %s: %r ends as %s (%s), the model says %s' % (
                 st, kd, a, got, str(x['outcome'].get('error') or x['outcome'].get('detail'))[:200], want))
     chk.stages['main'] = dict(rows=len(ROWS), disagreements=nbad)
+
+SITES_HEADER = '''From Coq Require Import ZArith List Bool.
+Import ListNotations.
+From PM Require Import Model.Main Gen.MainFlow.
+Set Printing Depth 10000000. Set Printing Width 1000000.
+Definition esc (s : site) := filter (fun e => negb (site_caught s e)) (prim_raises (s_prim s)).
+Eval vm_compute in (length main_sites, map (fun s => (s_line s, s_prim s, esc s)) (filter (fun s => negb (site_safe s)) main_sites)).
+'''
+def unsafe_sites(chk):
+    """Evaluate the regenerated flow in Coq: number of sites, and the sites at which a kind of exception the primitive
+    can raise is not turned into the diagnostic (named in the replay when the site theorem no longer checks)."""
+    if not vo_ok('Gen/MainFlow.v'):
+        chk.stages['flow'] = dict(sites=0, note='Gen/MainFlow.v does not compile (translator failed closed)'); return
+    rc, out = coq_eval('flow_%d' % os.getpid(), SITES_HEADER)
+    m = re.search(r'(?s)=\s*\((\d+)%?\w*,\s*(\[.*\])\)\s*:', out)
+    if rc != 0 or not m:
+        chk.tie_broken('correspondence', 'flow', 'flow evaluation failed: ' + out[-400:]); return
+    n = int(m.group(1)); bad = re.findall(r'\((\d+)%?Z?, (\w+), \[([^\]]*)\]\)', m.group(2))
+    chk.stages['flow'] = dict(sites=n, unsafe=[dict(line=int(a), prim=b, escaping=c) for a, b, c in bad])
+    for a, b, c in bad:
+        chk.tie_broken('theorem', 'C20_no_site_escapes', 'mininec.py line %s: %s can raise %s, which no try statement around it turns into the diagnostic' % (a, b, c))
